@@ -333,6 +333,14 @@ package table
 //@   at-return requires !old(newPath.IsWithdraw) ==> called(insertSort)
 //@   at-return requires old(newPath.IsWithdraw) ==> called(explicitWithdraw) && !called(insertSort)
 
+// from C16: the verdict as the policy condition uses it. ROATable.Validate gives no verdict (nil) for withdrawals and
+// for families that have no ROA table (everything but IPv4/IPv6 unicast); the rpki condition, which is evaluated for
+// every family, must not dereference that
+//@ props C16
+//@ func (*RpkiValidationCondition).Evaluate
+//@   requires c != nil && path != nil
+//@   claims nil
+
 // =============================================================================================
 // C10 — applying policy never changes the route as stored or as seen by any other peer
 // =============================================================================================
